@@ -13,6 +13,7 @@ import (
 	"time"
 
 	"github.com/failsafe-go/failsafe-go"
+	"github.com/failsafe-go/failsafe-go/fallback"
 	"github.com/failsafe-go/failsafe-go/retrypolicy"
 	"github.com/failsafe-go/failsafe-go/timeout"
 
@@ -97,6 +98,87 @@ func TestTimeoutThenCallerCancel(t *testing.T) {
 		}
 		b, _ := json.Marshal(sc)
 		st.Case(string(b), decided, fmt.Sprintf("decided=%v", decided))
+		st.Sample(string(b), func() any { return sc })
+	})
+}
+
+// TestTimeoutWhenAlreadyCancelled: the exclusive-outcome rule also holds when the execution has been cancelled by its
+// caller before the limit elapses and the function does not cooperate (it keeps running past the limit, or returns before
+// it): either the inner result comes back and the listener stays silent, or ErrExceeded comes back and the listener was
+// called exactly once; and never ErrExceeded before the limit.
+func TestTimeoutWhenAlreadyCancelled(t *testing.T) {
+	const test = "TestTimeoutWhenAlreadyCancelled"
+	st := harness.NewStats(test)
+	defer st.Flush()
+	rapid.Check(t, func(t *rapid.T) {
+		type scen struct {
+			LimitUs  int    `json:"limit_us"`
+			CancelAt string `json:"cancel_at"` // before | quarter | half
+			Dur      string `json:"dur"`       // half | double (of the limit; the function ignores the cancellation)
+			Async    bool   `json:"async"`
+			Outer    string `json:"outer"` // none | fallback (handles nothing)
+		}
+		sc := scen{LimitUs: rapid.SampledFrom([]int{2000, 5000}).Draw(t, "limitUs"), CancelAt: rapid.SampledFrom([]string{"before", "quarter", "half"}).Draw(t, "cancelAt"),
+			Dur: rapid.SampledFrom([]string{"half", "double", "double"}).Draw(t, "dur"), Async: rapid.Bool().Draw(t, "async"), Outer: rapid.SampledFrom([]string{"none", "fallback"}).Draw(t, "outer")}
+		limit := time.Duration(sc.LimitUs) * time.Microsecond
+		var listener atomic.Int32
+		to := timeout.Builder[int](limit).OnTimeoutExceeded(func(failsafe.ExecutionDoneEvent[int]) { listener.Add(1) }).Build()
+		pols := []failsafe.Policy[int]{to}
+		if sc.Outer == "fallback" {
+			pols = []failsafe.Policy[int]{fallback.BuilderWithResult[int](-1).HandleErrors(errors.New("never")).Build(), to}
+		}
+		ctx, cancel := context.WithCancel(context.Background())
+		defer cancel()
+		switch sc.CancelAt {
+		case "before":
+			cancel()
+		case "quarter":
+			time.AfterFunc(limit/4, cancel)
+		default:
+			time.AfterFunc(limit/2, cancel)
+		}
+		d := limit / 2
+		if sc.Dur == "double" {
+			d = 2 * limit
+		}
+		fn := func(failsafe.Execution[int]) (int, error) {
+			time.Sleep(d) // does not look at the cancellation
+			return 7, errIn
+		}
+		ex := failsafe.NewExecutor[int](pols...).WithContext(ctx)
+		t0 := time.Now()
+		var v int
+		var err error
+		if sc.Async {
+			v, err = ex.GetWithExecutionAsync(fn).Get()
+		} else {
+			v, err = ex.GetWithExecution(fn)
+		}
+		elapsed := time.Since(t0)
+		arm := "inner"
+		switch {
+		case errors.Is(err, timeout.ErrExceeded):
+			arm = "timeout"
+			if elapsed < limit {
+				harness.Violation(t, prop, test, "exceeded-before-limit", sc, "%+v: ErrExceeded after %v, before the limit %v", sc, elapsed, limit)
+			}
+			w := harness.Wait(20 * time.Second)
+			for listener.Load() < 1 && !w.Expired() {
+				time.Sleep(100 * time.Microsecond)
+			}
+			if got := listener.Load(); got != 1 {
+				harness.Violation(t, prop, test, "listener-count", sc, "%+v: ErrExceeded was returned but OnTimeoutExceeded was called %d times", sc, got)
+			}
+		case v == 7 && err == errIn:
+			time.Sleep(2*limit + time.Millisecond) // a timer that is still armed would fire by now
+			if got := listener.Load(); got != 0 {
+				harness.Violation(t, prop, test, "listener-count", sc, "%+v: the inner result was returned but OnTimeoutExceeded was called %d times", sc, got)
+			}
+		default:
+			harness.Violation(t, prop, test, "neither-arm", sc, "%+v: returned (%d,%v): neither the inner result nor ErrExceeded", sc, v, err)
+		}
+		b, _ := json.Marshal(sc)
+		st.Case(string(b), true, "arm="+arm, "cancel-at="+sc.CancelAt)
 		st.Sample(string(b), func() any { return sc })
 	})
 }
